@@ -33,6 +33,7 @@ type c05TxRec struct {
 	Halt   bool       `json:"halt"`
 	Res    int        `json:"res"` // 1 true, 0 false, -1 anything else
 	Events []c05Event `json:"events,omitempty"`
+	Viol   []string   `json:"violated,omitempty"` // clauses evaluated on this execution alone ("lim" operations, c05lim.go)
 }
 
 type c05BlockRec struct {
@@ -54,14 +55,15 @@ type c05Runner struct {
 	blocks  []*c05BlockRec
 	nops    int
 	csigs   map[int][]int
+	lims    map[int]c05Op      // the "lim" operations by index
 	onBlock func(*c05BlockRec) // called after every block
 }
 
 // c05NewRunner starts a history: block 1 deploys the three callback contracts (operation index -1).
 func c05NewRunner(c *c05Chain, onBlock func(*c05BlockRec)) (*c05Runner, error) {
-	r := &c05Runner{c: c, onBlock: onBlock, csigs: map[int][]int{}}
+	r := &c05Runner{c: c, onBlock: onBlock, csigs: map[int][]int{}, lims: map[int]c05Op{}}
 	cs := c05Compile(c.t, c.u.hashes[c05AValidators])
-	for _, ct := range []*neotest.Contract{cs.acceptor, cs.nocb, cs.rejector} {
+	for _, ct := range []*neotest.Contract{cs.acceptor, cs.nocb, cs.rejector, cs.notifier, cs.aborter, cs.looper} {
 		mb, _ := json.Marshal(ct.Manifest)
 		nb, _ := ct.NEF.Bytes()
 		tx, err := c.mkTx(c.mgmtH, "deploy", []any{nb, mb, nil}, 20_0000_0000, nil, c05AValidators)
@@ -114,6 +116,9 @@ func (r *c05Runner) submit(op c05Op) error {
 		}
 		r.csigs[i] = ks
 	}
+	if op.T == "lim" {
+		r.lims[i] = op
+	}
 	r.pending = append(r.pending, tx)
 	r.pendOps = append(r.pendOps, i)
 	return nil
@@ -152,6 +157,9 @@ func (r *c05Runner) flush() error {
 			}
 		}
 		tr.Events = c.transferEvents(a)
+		if lop, ok := r.lims[r.pendOps[j]]; ok {
+			tr.Viol = c.c05LimCheck(lop, a, &tr)
+		}
 		rec.Txs = append(rec.Txs, tr)
 	}
 	rec.Dump = c05DumpChain(c.bc, c.u)
@@ -179,6 +187,9 @@ func c05Invariants(prev, cur *c05Dump, rec *c05BlockRec) []string {
 	f := func(s string, a ...any) { bad = append(bad, fmt.Sprintf(s, a...)) }
 	for _, b := range cur.Bad {
 		f("undecodable storage item: %s", b)
+	}
+	for _, t := range rec.Txs {
+		bad = append(bad, t.Viol...)
 	}
 	neoSum, gasSum, voters := new(big.Int), new(big.Int), new(big.Int)
 	votesFor := map[int]*big.Int{}
@@ -657,6 +668,14 @@ func c05Generate(r *rng, c *c05Chain, run *c05Runner, nblocks int) ([]c05Op, err
 		if r.chance(15) {
 			n = 0
 		}
+		if r.chance(22) {
+			// executions at the notification limit around a native token movement (c05lim.go)
+			for _, op := range g.c05LimOps() {
+				if err := g.emit(op); err != nil {
+					return g.ops, err
+				}
+			}
+		}
 		for i := 0; i < n; i++ {
 			if err := g.emit(g.randomOp()); err != nil {
 				return g.ops, err
@@ -830,6 +849,17 @@ func runC05(args []string) error {
 	}
 	r := newRng(cf.seed)
 	hfs := []string{"gorgon", "all", "gorgon", "echidna"}
+	// the other side of Echidna: no notification limit (evaluated in Go, c05lim.go)
+	for i := 0; i < 1+cf.n/40; i++ {
+		in, viol, err := c05PreEchidna(newRng(r.next()))
+		if err != nil {
+			return err
+		}
+		if len(viol) > 0 {
+			co.violation("pre-echidna", strings.Join(viol, "; "), in, nil)
+		}
+		co.add("pre-echidna", "no-notification-limit", true, in, map[string]any{"ops": len(in.Ops)}, fmt.Sprintf("CDirect %d", len(in.Ops)))
+	}
 	for i := 0; i < cf.n; i++ {
 		nb := 12 + r.intn(19)
 		if cf.tier == "thorough" && r.chance(30) {
